@@ -180,16 +180,15 @@ impl Literal {
             {
                 if let Some(struct_def) = checked.struct_defs.get(struct_name1) {
                     if struct_def.fields.len() == fields.len() {
-                        let mut struct_def_fields = HashMap::with_capacity(fields.len());
+                        // every field of the definition must occur (exactly once, as the lengths
+                        // are equal), the order of the fields in the literal does not matter:
                         for (field_name, field_type) in struct_def.fields.iter() {
-                            struct_def_fields.insert(field_name, field_type);
-                        }
-                        for (field_name, field_literal) in fields.iter() {
-                            if let Some(expected_type) = struct_def_fields.get(field_name) {
-                                if !field_literal.is_of_type(checked, expected_type) {
-                                    return false;
-                                }
-                            } else {
+                            let Some((_, field_literal)) =
+                                fields.iter().find(|(name, _)| name == field_name)
+                            else {
+                                return false;
+                            };
+                            if !field_literal.is_of_type(checked, field_type) {
                                 return false;
                             }
                         }
